@@ -4,9 +4,15 @@
 //! contains [Instructions](`Inst`) which have input and output [registers](`Reg`). These registers might
 //! be written to multiple times.
 
+#[cfg(not(feature = "verif_hooks"))]
 use std::{
     collections::HashMap,
     ops::{Index, IndexMut},
+};
+#[cfg(feature = "verif_hooks")]
+use {
+    crate::verif_hooks::HashMap,
+    std::ops::{Index, IndexMut},
 };
 
 #[cfg(feature = "serde")]
